@@ -97,7 +97,8 @@ def cfg():
 
 PLACES = ("guard", "invariant", "invariant-urgent", "invariant-committed", "invariant-second-template",
           "guard-into-branchpoint", "guard-out-of-branchpoint", "guard-with-select-and-sync", "guard-as-cdata", "invariant-as-split-cdata", "invariant-with-rate", "invariant-after-rate-label",
-          "guard-in-unused-template", "invariant-in-unused-template", "guard-in-dynamic-template", "invariant-in-dynamic-template")
+          "guard-in-unused-template", "invariant-in-unused-template", "guard-in-dynamic-template", "invariant-in-dynamic-template",
+          "guard-read-from-fd", "invariant-read-from-file")
 
 
 def model(place, text):
@@ -114,6 +115,9 @@ def model(place, text):
             xmlgen.ENCODING = saved
         assert doc.count(plain) == 1
         return doc.replace(plain, enc, 1)
+    if place in ("guard-read-from-fd", "invariant-read-from-file"):
+        # the same documents handed to the other two XML entry points
+        return model(place.split("-")[0], text)
     if place == "guard":
         return xmlgen.simple_model(decl=DECL, guard=text)
     if place == "invariant":
@@ -133,7 +137,8 @@ def model(place, text):
         return xmlgen.nta(DECL, [t], "P = T(); system P;")
     if place == "guard-with-select-and-sync":
         return xmlgen.simple_model(decl=DECL + " broadcast chan zc[2];", select="zs : int[0,1]", sync="zc[zs]!", guard=text, assign="i = zs")
-    if place in ("guard-in-unused-template", "invariant-in-unused-template", "guard-in-dynamic-template", "invariant-in-dynamic-template"):
+    if place in ("guard-in-unused-template", "invariant-in-unused-template", "guard-in-dynamic-template", "invariant-in-dynamic-template",
+          "guard-read-from-fd", "invariant-read-from-file"):
         # a template that the system line does not name: defined and never instantiated, or instantiated at run time by `spawn`
         guard, dyn = place.startswith("guard"), "dynamic" in place
         u = xmlgen.template("U", locations=[xmlgen.location("id7", "M0", inv=None if guard else text), xmlgen.location("id8", "M1")], init="id7",
@@ -172,14 +177,15 @@ def run_shard(shard):
     if depth == 3 and engine.tier() != "thorough":
         # quick: the depth-3 enumeration on one placement of each kind; all placements get the depth-2 sweep over the 20 atom spellings
         places = ("guard", "invariant", "invariant-urgent", "invariant-second-template", "guard-into-branchpoint", "guard-as-cdata", "invariant-with-rate",
-                  "invariant-in-unused-template", "guard-in-dynamic-template")
+                  "invariant-in-unused-template", "guard-in-dynamic-template", "guard-read-from-fd")
     for place in places:
         docs = [model(place, it[0]) for it in items]
-        res = xmlgen.run_docs(w, docs, want=["noinv"], batch=200)
+        via = {"guard-read-from-fd": {"via": "fd"}, "invariant-read-from-file": {"via": "file"}}.get(place)
+        res = xmlgen.run_docs(w, docs, want=["noinv"], batch=200, extra=via)
         for it, r in zip(items, res):
             part.count()
             text, clocky, shape, pure, lv = it
-            replay = {"op": "xml", "buf": model(place, text), "place": place, "formula": text}
+            replay = dict({"op": "xml", "buf": model(place, text), "place": place, "formula": text}, **(via or {}))
             if engine.check_crash(part, PID, r, place + ": " + text, replay):
                 continue
             acc = xmlgen.accepted(r)
